@@ -32,6 +32,8 @@ RULE = (
     "fault position or timeout, interleaving signature)."
 )
 DECIDING = {
+    "nested_timeouts_expiring": "start_component(timeout=T) called from inside a component, inner start-up longer than T",
+    "nested_timeouts_not_expiring": "start_component(timeout=T) called from inside a component, inner start-up shorter than T",
     "fault_phase_creating": "failures in constructors",
     "fault_phase_prepare": "failures in prepare()",
     "fault_phase_start": "failures in start()",
@@ -60,6 +62,11 @@ def gen_case(idx: int, seed: int, tier: str) -> Any:
     if idx % 5 == 4:
         return {"kind": "inflight", "backend": rng.choice(["asyncio", "trio"]), "abort": rng.choice(["failure", "timeout"]),
                 "gen_time": rng.choice([0.5, 1, 2]), "consumer_delay": rng.choice([0, 0.5]), "fail_at": rng.choice([0.25, 0.75, 1.25, 3.25])}
+    if idx % 5 == 3:
+        return {"kind": "nested", "backend": rng.choice(["asyncio", "trio"]), "where": rng.choice(["prepare", "start"]), "host": rng.choice(["root", "child"]),
+                "inner_timeout": rng.choice([0.5, 1.5, 2.5]), "stall": rng.choice([0.25, 1.0, 2.0, 4.0, "forever"]), "stall_phase": rng.choice(["prepare", "start"]),
+                "stall_depth": rng.choice([0, 1]), "outer_timeout": rng.choice([None, None, 100]), "catch": rng.random() < 0.5,
+                "pre_delay": rng.choice([0, 0.5]), "sibling_busy": rng.choice([0, 3.0])}
     tree = e2.gen_tree(rng, max_depth=3, max_fanout=3, max_nodes=8, wait_heavy=False)
     return {"backend": rng.choice(["asyncio", "trio"]), "sched_seed": rng.randrange(1 << 30), "shuffle": rng.random() < 0.5, "tree": tree,
             "exc_seed": rng.randrange(1 << 30), "only": None}
@@ -153,11 +160,153 @@ def run_inflight(case: dict[str, Any]) -> dict[str, Any]:
             "sample": {"case": case, "log": out["log"], "outcome": {k: v for k, v in out.items() if k != "log"}} if in_flight and case["fail_at"] == 0.75 else None}
 
 
+async def nested_scenario(case: dict[str, Any], out: dict[str, Any]) -> None:
+    """A component starts a component tree of its own - start_component(..., timeout=T) called from inside prepare()/start() - whose
+    start-up takes S virtual seconds (or for ever).  The timeout of that inner call is as binding as any other: TimeoutError at exactly
+    T if S > T, no effect if S < T, and nothing of the inner tree continues afterwards."""
+    import anyio
+    from asphalt.core import Component, ComponentStartError, Context, start_component
+
+    log: list[Any] = out["log"]
+    t0 = [0.0]
+
+    def now() -> float:
+        return anyio.current_time() - t0[0]
+
+    async def stall(who: str) -> None:
+        log.append((now(), f"{who} begins to stall"))
+        if case["stall"] == "forever":
+            await anyio.sleep_forever()
+        else:
+            await anyio.sleep(case["stall"])
+        log.append((now(), f"{who} finished"))
+        out["inner_finished_at"] = now()
+
+    class Staller(Component):
+        async def prepare(self) -> None:
+            if case["stall_phase"] == "prepare":
+                await stall("inner component prepare()")
+
+        async def start(self) -> None:
+            if case["stall_phase"] == "start":
+                await stall("inner component start()")
+
+    class InnerRoot(Component):
+        def __init__(self) -> None:
+            self.add_component("staller", Staller)
+
+    inner_cls = Staller if case["stall_depth"] == 0 else InnerRoot
+
+    async def host_phase(self: Any) -> None:
+        if case["pre_delay"]:
+            await anyio.sleep(case["pre_delay"])
+        out["inner_called_at"] = now()
+        try:
+            await start_component(inner_cls, timeout=case["inner_timeout"])
+            out["inner"] = "returned"
+        except TimeoutError as e:
+            out["inner"] = "TimeoutError"
+            out["inner_error"] = e
+            if not case["catch"]:
+                raise
+        finally:
+            out["inner_done_at"] = now()
+        log.append((now(), f"host {case['where']}() goes on"))
+
+    class Host(Component):
+        pass
+
+    setattr(Host, case["where"], host_phase)
+
+    class Busy(Component):
+        async def start(self) -> None:
+            await anyio.sleep(case["sibling_busy"])
+            out["busy_finished_at"] = now()
+
+    class Root(Component):
+        def __init__(self) -> None:
+            self.add_component("host", Host)
+            if case["sibling_busy"]:
+                self.add_component("busy", Busy)
+
+    async with Context():
+        t0[0] = anyio.current_time()
+        try:
+            await start_component(Host if case["host"] == "root" else Root, timeout=case["outer_timeout"])
+            out["outer"] = "returned"
+        except (ComponentStartError, TimeoutError) as e:
+            out["outer"] = type(e).__name__
+            out["outer_error"] = e
+        out["outer_done_at"] = now()
+        await anyio.sleep(50)  # observation window: nothing of either tree may run any more
+    out["left"] = True
+
+
+def run_nested(case: dict[str, Any]) -> dict[str, Any]:
+    from vkit.trace import describe_exc
+    from vkit.vtime import VirtualDeadlock, run_virtual
+
+    out: dict[str, Any] = {"log": []}
+    V: list[dict[str, Any]] = []
+
+    def bad(key: str, msg: str) -> None:
+        V.append({"key": key, "msg": f"nested start_component(timeout={case['inner_timeout']}) in {case['where']}() of the {case['host']} component, inner start-up "
+                                     f"needs {case['stall']}: {msg}", "witness": {"case": case, "log": [str(x) for x in out["log"]],
+                                                                                  "outcome": {k: (describe_exc(v) if isinstance(v, BaseException) else v) for k, v in out.items() if k != "log"}}})
+
+    try:
+        run_virtual(case["backend"], nested_scenario, case, out)
+    except VirtualDeadlock as e:
+        bad("timeout-not-raised", f"the program never finished ({e})")
+    except BaseException as e:
+        bad("fail-crash", f"scenario crashed: {describe_exc(e)}")
+    T, S = case["inner_timeout"], case["stall"]
+    expires = S == "forever" or S > T
+    c = {"nested_scenarios": 1, "nested_timeouts_expiring": int(expires), "nested_timeouts_not_expiring": int(not expires)}
+    if not V:
+        t_call = out.get("inner_called_at", 0.0)
+        if expires:
+            if out.get("inner") != "TimeoutError":
+                bad("timeout-not-raised", f"the inner call {out.get('inner')} at virtual time {out.get('inner_done_at')} instead of raising TimeoutError at {t_call + T}")
+            elif abs(out["inner_done_at"] - (t_call + T)) > 1e-9:
+                bad("timeout-time", f"TimeoutError raised at virtual time {out['inner_done_at']}, expected {t_call + T}")
+            if "inner_finished_at" in out and out["inner_finished_at"] > t_call + T:
+                bad("fail-work-after-raise", f"the stalled inner component went on and finished at virtual time {out['inner_finished_at']}, after the timeout")
+            if not V:
+                if case["catch"]:
+                    want_outer, t_outer = "returned", max(t_call + T, case["sibling_busy"] if case["host"] != "root" else 0)
+                else:
+                    want_outer, t_outer = "ComponentStartError", t_call + T
+                if out.get("outer") != want_outer:
+                    bad("fail-wrong-exception", f"the outer start_component {out.get('outer')}, expected {want_outer}")
+                elif abs(out["outer_done_at"] - t_outer) > 1e-9:
+                    bad("fail-time", f"the outer start_component finished at virtual time {out['outer_done_at']}, expected {t_outer}")
+                elif want_outer == "ComponentStartError":
+                    e = out["outer_error"]
+                    want_path = "" if case["host"] == "root" else "host"
+                    label = {"prepare": "preparing", "start": "starting"}[case["where"]]
+                    if e.__cause__ is not out.get("inner_error"):
+                        bad("fail-cause", f"the cause of the outer ComponentStartError is {describe_exc(e.__cause__)}, not the TimeoutError the component raised")
+                    if e.path != want_path or e.phase != label:
+                        bad("fail-path", f"outer ComponentStartError names phase {e.phase!r} / path {e.path!r}, expected {label!r} / {want_path!r}")
+                    if "busy_finished_at" in out and out["busy_finished_at"] > t_outer:
+                        bad("fail-sibling-continued", f"the sibling of the failed component kept starting until {out['busy_finished_at']}")
+        else:
+            if out.get("inner") != "returned" or abs(out["inner_done_at"] - (t_call + S)) > 1e-9:
+                bad("timeout-affected-startup[nested]", f"an inner start-up that fits into its timeout: the call {out.get('inner')} at {out.get('inner_done_at')}, expected to return at {t_call + S}")
+            elif out.get("outer") != "returned":
+                bad("timeout-affected-startup[nested]", f"the outer start_component {out.get('outer')}: {describe_exc(out.get('outer_error'))}")
+    return {"violations": V, "sig": ("nested", tuple(sorted((k, str(v)) for k, v in case.items()))), "nontrivial": expires, "counters": c,
+            "sample": {"case": case, "log": [str(x) for x in out["log"]], "outcome": {k: str(v) for k, v in out.items() if k != "log"}} if expires and case["catch"] is False and case["host"] == "child" else None}
+
+
 def run_case(case: Any) -> dict[str, Any]:
     import random
 
     if case.get("kind") == "inflight":
         return run_inflight(case)
+    if case.get("kind") == "nested":
+        return run_nested(case)
 
     rng = random.Random(case["exc_seed"])
     tree = case["tree"]
